@@ -49,7 +49,7 @@ def corner(c):
     return (not c["cuts"]) or (len(c["cuts"]) == 1 and c["cuts"][0] in ends) or any("X" in b for b in c["bodies"]) and len(c["cuts"]) <= 1
 
 def select(prop, tier, rng):
-    fams = ["F1", "F2", "F3", "F8", "F9", "F10", "F11", "F12"] if prop == "C06" else ["F4", "F5", "F3", "F7"]
+    fams = ["F1", "F2", "F3", "F8", "F9", "F10", "F11", "F12", "F14"] if prop == "C06" else ["F4", "F5", "F3", "F7", "F13"]
     universe, gens = {}, []
     for f in fams:
         cases, r = tlc_cases(f, f"{prop}-gen-{f}")
@@ -57,9 +57,9 @@ def select(prop, tier, rng):
     chosen = []
     for f, cases in universe.items():
         if tier == "thorough":
-            budget = {"F1": 600, "F2": 1500, "F3": 12, "F4": 1000, "F5": 200, "F7": 100, "F8": 100, "F9": 100, "F10": 400, "F11": 20, "F12": 20}[f]
+            budget = {"F1": 600, "F2": 1500, "F3": 12, "F4": 1000, "F5": 200, "F7": 100, "F8": 100, "F9": 100, "F10": 400, "F11": 20, "F12": 20, "F13": 60, "F14": 10}[f]
         else:
-            budget = {"F1": 110, "F2": 150, "F3": 12, "F4": 120, "F5": 40, "F7": 100, "F8": 100, "F9": 100, "F10": 60, "F11": 20, "F12": 20}[f]
+            budget = {"F1": 110, "F2": 150, "F3": 12, "F4": 120, "F5": 40, "F7": 100, "F8": 100, "F9": 100, "F10": 60, "F11": 20, "F12": 20, "F13": 60, "F14": 10}[f]
         if len(cases) <= budget:
             pick = list(cases)
         else:
